@@ -254,7 +254,7 @@ def argv_for(case):
     return argv
 
 
-def check_case(case):
+def check_case_inner(case):
     kind = case["kind"]
     mode = case["mode"]             # canonical mode name or None (default)
     cm = R.canon(mode or "gregorian")
@@ -693,6 +693,11 @@ def refused_by_library(case):
     g = case["garbage"]
     if g.startswith("-") and case["slot"] != "offset":
         return False        # looks like an option to the argument parser
+    if g == "--":
+        # the end-of-options marker: argparse consumes it even when given as
+        # an option's value (--offset=-- arrives as an empty list), so the
+        # library never sees "an argument that cannot be parsed"
+        return False
     cm = case["mode"] or "gregorian"
     with M.use_mode(cm), fake_system_zone(tuple(case["sys"])):
         try:
@@ -722,7 +727,7 @@ def refused_by_library(case):
     return False
 
 
-def check_case_outer(case):
+def check_case(case):
     if case["kind"] == "bad" and not refused_by_library(case):
         return Outcome(skip=True, classes=["bad/out_of_domain"])
     if case["kind"] == "recur":
@@ -736,13 +741,13 @@ def check_case_outer(case):
                 [str(p) for p in itertools.islice(iter(rec), case["max"])]
             except OverflowError:
                 return Outcome(skip=True, classes=["recur/unprintable"])
-    return check_case(case)
+    return check_case_inner(case)
 
 
 def run_shard(ctx):
     quick = ctx.tier == "quick"
     n = 1000 if quick else 25000
-    ctx.hyp(st_shift(), check_case_outer, n + n // 2)
-    ctx.hyp(st_diff(), check_case_outer, n // 2, seed_salt=1)
-    ctx.hyp(st_recur(), check_case_outer, n // 4, seed_salt=2)
-    ctx.hyp(st_bad(), check_case_outer, n // 2, seed_salt=3)
+    ctx.hyp(st_shift(), check_case, n + n // 2)
+    ctx.hyp(st_diff(), check_case, n // 2, seed_salt=1)
+    ctx.hyp(st_recur(), check_case, n // 4, seed_salt=2)
+    ctx.hyp(st_bad(), check_case, n // 2, seed_salt=3)
